@@ -105,6 +105,10 @@ impl<L: Language> Pattern<L> {
 impl<L: Language> RecExpr<L> {
     pub fn parse(s: &str) -> Result<Self, ParseError> {
         let pat = Pattern::parse(s)?;
+        if !is_ground(&pat) {
+            // a term can't contain pattern variables or substitutions.
+            return Err(ParseError::TokenState(s.to_string()));
+        }
         Ok(pattern_to_re(&pat))
     }
 }
@@ -117,17 +121,19 @@ impl<L: Language> MultiPattern<L> {
             let x = x.trim();
             if x.is_empty() { continue }
 
+            let err = || ParseError::TokenState(x.to_string());
             let v: Box<[&str]> = x.split("==").collect();
-            assert_eq!(v.len(), 2);
+            if v.len() != 2 { return Err(err()) }
             let var: Pattern<L> = Pattern::parse(v[0])?;
             let rhs: Pattern<L> = Pattern::parse(v[1])?;
-            let Pattern::PVar(v) = var else { panic!("{var} isn't a PVar") };
-            let Pattern::ENode(n, children) = rhs else { panic!("{rhs} isn't an e-node") };
-            let children = children.into_iter().map(|x| {
-                let Pattern::PVar(xx) = x else { panic!("child {x} isn't a PVar") };
-                xx
-            }).collect();
-            out.push((v, n, children));
+            let Pattern::PVar(v) = var else { return Err(err()) };
+            let Pattern::ENode(n, children) = rhs else { return Err(err()) };
+            let mut pvar_children = Vec::new();
+            for c in children {
+                let Pattern::PVar(xx) = c else { return Err(err()) };
+                pvar_children.push(xx);
+            }
+            out.push((v, n, pvar_children));
         }
         Ok(MultiPattern { pats: out })
     }
@@ -140,7 +146,7 @@ fn parse_pattern<L: Language>(tok: &[Token]) -> Result<(Pattern<L>, &[Token]), P
         let (l, tok2) = parse_pattern(tok)?;
         tok = tok2;
 
-        let Token::ColonEquals = &tok[0] else {
+        let Some(Token::ColonEquals) = tok.get(0) else {
             return Err(ParseError::ExpectedColonEquals(to_vec(tok)));
         };
         tok = &tok[1..];
@@ -148,7 +154,7 @@ fn parse_pattern<L: Language>(tok: &[Token]) -> Result<(Pattern<L>, &[Token]), P
         let (r, tok2) = parse_pattern(tok)?;
         tok = tok2;
 
-        let Token::RBracket = &tok[0] else {
+        let Some(Token::RBracket) = tok.get(0) else {
             return Err(ParseError::ExpectedRBracket(to_vec(tok)));
         };
         tok = &tok[1..];
@@ -161,24 +167,30 @@ fn parse_pattern<L: Language>(tok: &[Token]) -> Result<(Pattern<L>, &[Token]), P
 fn parse_pattern_nosubst<L: Language>(
     mut tok: &[Token],
 ) -> Result<(Pattern<L>, &[Token]), ParseError> {
-    if let Token::PVar(p) = &tok[0] {
+    let Some(first) = tok.get(0) else {
+        return Err(ParseError::ParseState(to_vec(tok)));
+    };
+
+    if let Token::PVar(p) = first {
         let pat = Pattern::PVar(p.to_string());
         return Ok((pat, &tok[1..]));
     }
 
-    if let Token::LParen = tok[0] {
+    if let Token::LParen = first {
         tok = &tok[1..];
 
-        let Token::Ident(op) = &tok[0] else {
+        let Some(Token::Ident(op)) = tok.get(0) else {
             return Err(ParseError::ParseState(to_vec(tok)));
         };
         tok = &tok[1..];
 
         let mut syntax_elems = vec![NestedSyntaxElem::String(op.to_string())];
         loop {
-            if let Token::RParen = tok[0] {
-                break;
-            };
+            match tok.get(0) {
+                Some(Token::RParen) => break,
+                Some(_) => {}
+                None => return Err(ParseError::ParseState(to_vec(tok))),
+            }
 
             let (se, tok2) = parse_nested_syntax_elem(tok)?;
             tok = tok2;
@@ -195,7 +207,11 @@ fn parse_pattern_nosubst<L: Language>(
             })
             .collect();
         let node = L::from_syntax(&syntax_elems_mock)
-            .ok_or_else(|| ParseError::FromSyntaxFailed(syntax_elems_mock))?;
+            .ok_or_else(|| ParseError::FromSyntaxFailed(syntax_elems_mock.clone()))?;
+        // from_syntax ignores surplus arguments, we don't.
+        if node.to_syntax().len() != syntax_elems_mock.len() {
+            return Err(ParseError::FromSyntaxFailed(syntax_elems_mock));
+        }
         let syntax_elems = syntax_elems
             .into_iter()
             .filter_map(|x| match x {
@@ -207,7 +223,7 @@ fn parse_pattern_nosubst<L: Language>(
         let re = Pattern::ENode(node, syntax_elems);
         Ok((re, tok))
     } else {
-        let Token::Ident(op) = &tok[0] else {
+        let Token::Ident(op) = first else {
             return Err(ParseError::ParseState(to_vec(tok)));
         };
         tok = &tok[1..];
@@ -230,7 +246,7 @@ enum NestedSyntaxElem<L: Language> {
 fn parse_nested_syntax_elem<L: Language>(
     tok: &[Token],
 ) -> Result<(NestedSyntaxElem<L>, &[Token]), ParseError> {
-    if let Token::Slot(slot) = &tok[0] {
+    if let Some(Token::Slot(slot)) = tok.get(0) {
         return Ok((NestedSyntaxElem::Slot(*slot), &tok[1..]));
     }
 
@@ -301,7 +317,7 @@ impl<L: Language> std::fmt::Display for MultiPattern<L> {
         for (i, (pv, n, children)) in self.pats.iter().enumerate() {
             let children = children.iter().map(|x| Pattern::PVar(x.clone())).collect();
             let pat = Pattern::ENode(n.clone(), children);
-            write!(f, "{pv} == {pat}")?;
+            write!(f, "?{pv} == {pat}")?;
             if i != self.pats.len()-1 {
                 write!(f, ", ")?;
             }
@@ -316,6 +332,13 @@ impl<L: Language> std::fmt::Debug for MultiPattern<L> {
     }
 }
 
+
+fn is_ground<L: Language>(pat: &Pattern<L>) -> bool {
+    match pat {
+        Pattern::ENode(_, children) => children.iter().all(is_ground),
+        Pattern::PVar(_) | Pattern::Subst(..) => false,
+    }
+}
 
 fn to_vec<T: Clone>(t: &[T]) -> Vec<T> {
     t.iter().cloned().collect()
